@@ -4,6 +4,14 @@ pub assume_specification [i64::unsigned_abs] (x: i64) -> (r: u64)
 pub assume_specification [i8::unsigned_abs] (x: i8) -> (r: u8)
     ensures r as int == (if x >= 0 { x as int } else { -(x as int) });
 
+/// the other absolute-value flavours of std (i8): saturating_abs(-128) == 127; wrapping_abs(-128) == -128; abs(-128) overflows
+pub assume_specification [i8::saturating_abs] (x: i8) -> (r: i8)
+    ensures r as int == (if x == -128 { 127 } else if x >= 0 { x as int } else { -(x as int) });
+pub assume_specification [i8::wrapping_abs] (x: i8) -> (r: i8)
+    ensures r as int == (if x == -128 { -128 } else if x >= 0 { x as int } else { -(x as int) });
+pub assume_specification [i8::abs] (x: i8) -> (r: i8)
+    requires x != -128
+    ensures r as int == (if x >= 0 { x as int } else { -(x as int) });
 /// Rust's `/` on signed integers truncates toward zero; spec `int` division is Euclidean.
 pub open spec fn trunc_div(p: int, q: int) -> int { if p >= 0 { p / q } else { -((-p) / q) } }
 /// max(multiplier/128, 2) once TIP-901 is active, multiplier/128 before
